@@ -64,6 +64,8 @@ def gen_symtab(tier):
              bounds="two names (concrete ids), symbolic u8 values; HashMap under the all-colliding hasher stub", unwind=18, tier=tier)
     from .c14 import STUB_RS, STUB_DH
     h.attrs = [STUB_RS] + STUB_DH
+    h.tier = "off"
+    h.off_reason = "std HashMap (hashbrown) insert/lookup: out of 10 GB, also under the all-colliding hasher stub"
     h.rec_limit = 1
     return h
 
